@@ -828,4 +828,397 @@ theorem div_exponents {a b u : Nat} (ha52 : 2 ^ 52 ≤ a) (hb52 : 2 ^ 52 ≤ b) 
     have := (Nat.pow_lt_pow_iff_right (by decide : 1 < 2)).1 h1
     omega
 
+theorem abs_two_pow (k : Nat) : |(2 : Int) ^ k| = 2 ^ k := abs_of_pos (by positivity)
+
+theorem natAbs_mul_two_pow (A : Int) (u : Nat) : (A * 2 ^ u).natAbs = A.natAbs * 2 ^ u := by
+  rw [Int.natAbs_mul, Int.natAbs_pow]; rfl
+
+theorem natCast_le_abs_iff {n : Nat} {z : Int} : (n : Int) ≤ |z| ↔ n ≤ z.natAbs := by
+  rw [← Int.natCast_natAbs z]; exact Int.ofNat_le
+
+/-- The division residual on scaled integers. -/
+theorem div_residual_int {A B : Int} {u : Nat} (hA : RepI A) (hB : RepI B)
+    (hB52 : 2 ^ 52 ≤ B.natAbs) (hA105 : 2 ^ 105 ≤ A.natAbs)
+    (hq : 2 ^ 52 * B.natAbs ≤ A.natAbs * 2 ^ u) :
+    ∃ Q : Int, rdI (A * 2 ^ u) B * B = Q * 2 ^ u ∧
+      RepI (Q - rnI Q) ∧ RepI (A - rnI Q) ∧ RepI (A - Q) ∧
+      |Q - rnI Q| ≤ |A| ∧ |A - rnI Q| ≤ |A| ∧ |A - Q| ≤ |A| ∧ |Q| ≤ 2 * |A| ∧
+      2 * (|A - Q| * 2 ^ u) ≤ |B| * 2 ^ (Nat.log2 (A.natAbs * 2 ^ u / B.natAbs) - 52) := by
+  have ha52 : 2 ^ 52 ≤ A.natAbs := Nat.le_trans (by norm_num) hA105
+  obtain ⟨x1, x2⟩ := div_exponents ha52 hB52 hq
+  have a1 := (log2_sub_spec ha52).1
+  have a2 := lt_ulp_mul A.natAbs
+  have b2 := lt_ulp_mul B.natAbs
+  have hAd := hA.ulp_dvd
+  have hBd := hB.ulp_dvd
+  have hB0 : B ≠ 0 := by
+    intro h; rw [h] at hB52; simp at hB52
+  have hTd := rdI_dvd (A * 2 ^ u) B
+  have herr := rdI_err (A * 2 ^ u) hB0
+  have hTabs := abs_rdI (A * 2 ^ u) hB0
+  have hTle := roundQ_le_pow (A * 2 ^ u).natAbs B.natAbs (Int.natAbs_pos.2 hB0)
+  rw [natAbs_mul_two_pow] at hTd herr hTabs hTle
+  generalize rdI (A * 2 ^ u) B = T at *
+  generalize Nat.log2 A.natAbs - 52 = eA at *
+  generalize Nat.log2 B.natAbs - 52 = eB at *
+  generalize Nat.log2 (A.natAbs * 2 ^ u / B.natAbs) - 52 = e at *
+  -- eA ≥ 53
+  have heA : 53 ≤ eA := by
+    have h1 : 2 ^ 105 < 2 ^ (53 + eA) := by rw [Nat.pow_add]; omega
+    have := (Nat.pow_lt_pow_iff_right (by decide : 1 < 2)).1 h1
+    omega
+  obtain ⟨g, hg⟩ : ∃ g, g + u = e + eB := ⟨e + eB - u, by omega⟩
+  have hgA : g + 52 ≤ eA := by omega
+  -- magnitudes as integers
+  have hTle' : |T| ≤ 2 ^ 53 * 2 ^ e := by rw [hTabs]; exact_mod_cast hTle
+  have hBlt : |B| < 2 ^ 53 * 2 ^ eB := by rw [← Int.natCast_natAbs]; exact_mod_cast b2
+  have hAge : 2 ^ 52 * 2 ^ eA ≤ |A| := by rw [← Int.natCast_natAbs]; exact_mod_cast a1
+  have hpu : (0 : Int) < 2 ^ u := by positivity
+  have hpe : (0 : Int) < 2 ^ e := by positivity
+  have hpg : (0 : Int) < 2 ^ g := by positivity
+  have hpeB : (0 : Int) < 2 ^ eB := by positivity
+  have hrel : (2 : Int) ^ g * 2 ^ u = 2 ^ e * 2 ^ eB := by rw [← pow_add, ← pow_add, hg]
+  have hgA' : (2 : Int) ^ g * 2 ^ 52 ≤ 2 ^ eA := by
+    rw [← pow_add]; exact pow_le_pow_right₀ (by norm_num) hgA
+  -- the quotient Q
+  have hTB : (2 : Int) ^ g * 2 ^ u ∣ T * B := by rw [hrel]; exact mul_dvd_mul hTd hBd
+  obtain ⟨Q, hQ⟩ : (2 : Int) ^ u ∣ T * B := dvd_trans (Dvd.intro_left _ rfl) hTB
+  have hQ' : T * B = Q * 2 ^ u := by rw [hQ]; ring
+  have hQd : (2 : Int) ^ g ∣ Q := by
+    rw [hQ'] at hTB
+    exact Int.dvd_of_mul_dvd_mul_right (ne_of_gt hpu) hTB
+  have hAdg : (2 : Int) ^ g ∣ A := dvd_trans (pow_dvd_pow 2 (by omega)) hAd
+  -- |Q| < 2^106 · 2^g
+  have hQlt : |Q| < 2 ^ 106 * 2 ^ g := by
+    have h1 : |Q| * 2 ^ u = |T| * |B| := by rw [← abs_two_pow u, ← abs_mul, ← hQ', abs_mul]
+    have h2 : |T| * |B| < 2 ^ 53 * 2 ^ e * (2 ^ 53 * 2 ^ eB) :=
+      lt_of_le_of_lt (mul_le_mul_of_nonneg_right hTle' (abs_nonneg B))
+        (mul_lt_mul_of_pos_left hBlt (by positivity))
+    have h3 : (2 : Int) ^ 53 * 2 ^ e * (2 ^ 53 * 2 ^ eB) = 2 ^ 106 * 2 ^ g * 2 ^ u := by
+      rw [mul_assoc ((2 : Int) ^ 106), hrel]; ring
+    rw [← h1, h3] at h2
+    exact lt_of_mul_lt_mul_right h2 (le_of_lt hpu)
+  -- the residual
+  have hres : 2 * (|A - Q| * 2 ^ u) ≤ |B| * 2 ^ e := by
+    have : T * B - A * 2 ^ u = -((A - Q) * 2 ^ u) := by rw [hQ']; ring
+    rw [this, abs_neg, abs_mul, abs_two_pow] at herr
+    exact herr
+  have hAQ : |A - Q| < 2 ^ 52 * 2 ^ g := by
+    have h2 : |B| * 2 ^ e < 2 ^ 53 * 2 ^ eB * 2 ^ e := mul_lt_mul_of_pos_right hBlt hpe
+    have h3 : (2 : Int) ^ 53 * 2 ^ eB * 2 ^ e = 2 * (2 ^ 52 * 2 ^ g * 2 ^ u) := by
+      rw [mul_assoc ((2 : Int) ^ 52), hrel]; ring
+    rw [h3] at h2
+    have h4 : |A - Q| * 2 ^ u < 2 ^ 52 * 2 ^ g * 2 ^ u := by omega
+    exact lt_of_mul_lt_mul_right h4 (le_of_lt hpu)
+  -- the rounding error of Q
+  have hQerr : |Q - rnI Q| ≤ 2 ^ 52 * 2 ^ g := by
+    have h1 := two_mul_abs_rnI_sub_le Q
+    have h3 : Q.natAbs < 2 ^ 53 * 2 ^ (53 + g) := by
+      have : |Q| < 2 ^ 53 * 2 ^ (53 + g) := by
+        rw [pow_add, ← mul_assoc]; exact hQlt
+      rw [← Int.natCast_natAbs] at this; exact_mod_cast this
+    have h5 := Nat.pow_le_pow_right (show 0 < 2 by decide) (log2_sub_le h3)
+    have h6 : ((2 ^ (Nat.log2 Q.natAbs - 52) : Nat) : Int) ≤ 2 ^ 53 * 2 ^ g := by
+      rw [Nat.pow_add] at h5; exact_mod_cast h5
+    rw [abs_sub_comm]; omega
+  have hsmall : (2 : Int) ^ 53 * 2 ^ g ≤ |A| := by
+    have : (2 : Int) ^ 53 * 2 ^ g = 2 * (2 ^ g * 2 ^ 52) := by ring
+    rw [this]
+    have h52 : (2 : Int) ^ 52 * 2 ^ eA = 2 ^ 52 * 2 ^ eA := rfl
+    nlinarith [hgA', hAge, hpg]
+  have hArn : |A - rnI Q| ≤ 2 ^ 53 * 2 ^ g := by
+    have e1 : A - rnI Q = (A - Q) + (Q - rnI Q) := by ring
+    have := abs_add_le (A - Q) (Q - rnI Q)
+    rw [e1]; omega
+  refine ⟨Q, hQ', ?_, ?_, ?_, ?_, ?_, ?_, ?_, hres⟩
+  · apply repI_sub_rnI_of_dvd (k := g)
+    · have : ((2 ^ g : Nat) : Int) ∣ Q := by rwa [Int.natCast_pow]
+      exact Int.natCast_dvd.1 this
+    · rw [← Int.natCast_natAbs] at hQlt; exact_mod_cast hQlt
+  · exact rep_natAbs_of_dvd_of_le (k := g) (dvd_sub hAdg (rnI_dvd hQd)) hArn
+  · exact rep_natAbs_of_dvd_of_le (k := g) (dvd_sub hAdg hQd) (by omega)
+  · omega
+  · omega
+  · omega
+  · have := abs_sub_abs_le_abs_sub Q A
+    rw [abs_sub_comm Q A] at this
+    omega
+
+
+theorem natAbs_mul_natCast (A : Int) (U : Nat) : (A * (U : Int)).natAbs = A.natAbs * U := by
+  rw [Int.natAbs_mul, Int.natAbs_natCast]
+
+/-- `div_residual_int` with the power of two `U = 2^u` kept abstract (so that `U := unit` can be used without
+ever exposing the literal `2^1074`) -/
+theorem div_residual_int' {A B : Int} {U u : Nat} (hU : U = 2 ^ u) (hA : RepI A) (hB : RepI B)
+    (hB52 : 2 ^ 52 ≤ B.natAbs) (hA105 : 2 ^ 105 ≤ A.natAbs)
+    (hq : 2 ^ 52 * B.natAbs ≤ A.natAbs * U) :
+    ∃ Q : Int, rdI (A * (U : Int)) B * B = Q * (U : Int) ∧
+      RepI (Q - rnI Q) ∧ RepI (A - rnI Q) ∧ RepI (A - Q) ∧
+      |Q - rnI Q| ≤ |A| ∧ |A - rnI Q| ≤ |A| ∧ |A - Q| ≤ |A| ∧ |Q| ≤ 2 * |A| ∧
+      2 * (|A - Q| * (U : Int)) ≤ |B| * 2 ^ (Nat.log2 (A.natAbs * U / B.natAbs) - 52) := by
+  subst hU
+  have := div_residual_int (u := u) hA hB hB52 hA105 hq
+  push_cast
+  exact this
+
+theorem new_div_eq (a b : F64) :
+    TwoFloat.new_div a b =
+      arithmetic.fast_two_sum (F64.div a b)
+        (F64.div (F64.sub (F64.sub a (TwoFloat.new_mul (F64.div a b) b).hi)
+          (TwoFloat.new_mul (F64.div a b) b).lo) b) := rfl
+
+/-- `new_div`, word level. -/
+theorem new_div_words {a b : F64} (ha : a.is_finite = true) (hb : b.is_finite = true)
+    (hwa : a.WF) (hwb : b.WF)
+    (hB52 : 2 ^ 52 ≤ b.toInt.natAbs) (hA105 : 2 ^ 105 ≤ a.toInt.natAbs)
+    (hA2 : 2 * |a.toInt| ≤ (maxFin : Int))
+    (hq : 2 ^ 53 * b.toInt.natAbs ≤ a.toInt.natAbs * unit)
+    (hov : 2 * roundQ (a.toInt.natAbs * unit) b.toInt.natAbs ≤ maxFin) :
+    ∃ Q : Int, rdI (a.toInt * (unit : Int)) b.toInt * b.toInt = Q * (unit : Int) ∧
+      2 * (|a.toInt - Q| * (unit : Int)) ≤
+        |b.toInt| * 2 ^ (Nat.log2 (a.toInt.natAbs * unit / b.toInt.natAbs) - 52) ∧
+      IsVal (F64.div a b) (rdI (a.toInt * (unit : Int)) b.toInt) ∧
+      IsVal (TwoFloat.new_div a b).hi
+        (rnI (rdI (a.toInt * (unit : Int)) b.toInt + rdI ((a.toInt - Q) * (unit : Int)) b.toInt)) ∧
+      IsVal (TwoFloat.new_div a b).lo
+        (rdI (a.toInt * (unit : Int)) b.toInt + rdI ((a.toInt - Q) * (unit : Int)) b.toInt
+          - rnI (rdI (a.toInt * (unit : Int)) b.toInt + rdI ((a.toInt - Q) * (unit : Int)) b.toInt)) := by
+  have hq52 : 2 ^ 52 * b.toInt.natAbs ≤ a.toInt.natAbs * unit := by
+    have : (2 : Nat) ^ 53 = 2 * 2 ^ 52 := by norm_num
+    rw [this] at hq
+    generalize (2 : Nat) ^ 52 = c at *
+    generalize a.toInt.natAbs * unit = n at *
+    generalize b.toInt.natAbs = m at *
+    have := Nat.mul_le_mul_right m (show c ≤ 2 * c by omega)
+    omega
+  obtain ⟨Q, hQ, r1, r2, r3, m1, m2, m3, m4, hres⟩ :=
+    div_residual_int' unit_eq hwa.repI hwb.repI hB52 hA105 hq52
+  have hB0 : b.toInt ≠ 0 := by
+    intro h; rw [h] at hB52; simp at hB52
+  have hbpos : 0 < b.toInt.natAbs := Int.natAbs_pos.2 hB0
+  have hAmax := hwa.abs_toInt_le
+  -- the rounding exponent is at least 1
+  have he1 : 1 ≤ Nat.log2 (a.toInt.natAbs * unit / b.toInt.natAbs) - 52 := by
+    apply le_log2_sub
+    rw [Nat.le_div_iff_mul_le hbpos]
+    have : (2 : Nat) ^ 52 * 2 ^ 1 = 2 ^ 53 := by norm_num
+    rw [this]; exact hq
+  have hTabs := abs_rdI (a.toInt * (unit : Int)) hB0
+  have hTge := pow_le_roundQ hbpos hq52
+  rw [natAbs_mul_natCast] at hTabs
+  refine ⟨Q, hQ, hres, ?_⟩
+  -- th
+  have hth : IsVal (F64.div a b) (rdI (a.toInt * (unit : Int)) b.toInt) := by
+    have := div_spec ha hb hB0 (by
+      rw [natAbs_mul_natCast]; omega)
+    exact this
+  -- 2Prod of th and b
+  have hQmax : rn53 Q.natAbs ≤ maxFin := rn53_natAbs_le_maxFin (by omega)
+  have hmul := new_mul_words_of (a := F64.div a b) (b := b) hth.1 hb (Q := Q)
+    (by rw [hth.2]; exact hQ) hQmax r1
+  -- dh, d
+  have hdh := (IsVal.of_finite ha).sub_exact hmul.1 r2 (by omega)
+  have e1 : a.toInt - rnI Q - (Q - rnI Q) = a.toInt - Q := by ring
+  have hd := hdh.sub_exact hmul.2 (by rw [e1]; exact r3) (by rw [e1]; omega)
+  rw [e1] at hd
+  -- tl
+  obtain ⟨e', he'⟩ : ∃ e', Nat.log2 (a.toInt.natAbs * unit / b.toInt.natAbs) - 52 = e' + 1 :=
+    ⟨_, (Nat.sub_add_cancel he1).symm⟩
+  rw [he'] at hres hTge
+  have htl_le : roundQ ((a.toInt - Q).natAbs * unit) b.toInt.natAbs ≤ 2 ^ e' := by
+    apply roundQ_le_of_le hbpos (rep_two_pow e')
+    have h1 : (((a.toInt - Q).natAbs * unit : Nat) : Int) ≤ ((2 ^ e' * b.toInt.natAbs : Nat) : Int) := by
+      rw [Int.natCast_mul, Int.natCast_mul, Int.natCast_natAbs, Int.natCast_natAbs, Int.natCast_pow,
+        Nat.cast_ofNat]
+      rw [pow_succ] at hres
+      have e2 : |b.toInt| * ((2 : Int) ^ e' * 2) = 2 * (2 ^ e' * |b.toInt|) := by ring
+      rw [e2] at hres
+      omega
+    exact Int.ofNat_le.1 h1
+  have hTbig : 2 ^ e' ≤ roundQ (a.toInt.natAbs * unit) b.toInt.natAbs := by
+    refine Nat.le_trans ?_ hTge
+    have := Nat.two_pow_pos e'
+    rw [Nat.pow_succ]
+    have h52 : 1 ≤ 2 ^ 52 := Nat.one_le_two_pow
+    calc 2 ^ e' = 1 * 2 ^ e' := (Nat.one_mul _).symm
+      _ ≤ 2 ^ 52 * (2 ^ e' * 2) := Nat.mul_le_mul h52 (by omega)
+  have htl : IsVal (F64.div (F64.sub (F64.sub a (TwoFloat.new_mul (F64.div a b) b).hi)
+      (TwoFloat.new_mul (F64.div a b) b).lo) b) (rdI ((a.toInt - Q) * (unit : Int)) b.toInt) := by
+    have := div_spec hd.1 hb hB0 (by
+      rw [hd.2, natAbs_mul_natCast]; omega)
+    rwa [hd.2] at this
+  have htlabs := abs_rdI ((a.toInt - Q) * (unit : Int)) hB0
+  rw [natAbs_mul_natCast] at htlabs
+  -- final Fast2Sum
+  rw [new_div_eq]
+  have hle : |rdI ((a.toInt - Q) * (unit : Int)) b.toInt| ≤ |rdI (a.toInt * (unit : Int)) b.toInt| := by
+    rw [htlabs, hTabs]; exact Int.ofNat_le.2 (Nat.le_trans htl_le hTbig)
+  have hf := fast_two_sum_words hth.1 htl.1 (div_WF _ _) (div_WF _ _)
+    (by rw [hth.2, htl.2]; exact hle)
+    (by
+      rw [hth.2, htl.2]
+      apply rn53_natAbs_le_maxFin
+      have := abs_add_le (rdI (a.toInt * (unit : Int)) b.toInt) (rdI ((a.toInt - Q) * (unit : Int)) b.toInt)
+      have h2 : |rdI (a.toInt * (unit : Int)) b.toInt| * 2 ≤ (maxFin : Int) := by
+        rw [hTabs]; exact_mod_cast (by omega : roundQ (a.toInt.natAbs * unit) b.toInt.natAbs * 2 ≤ maxFin)
+      omega)
+  rw [hth.2, htl.2] at hf
+  exact ⟨hth, hf.1, hf.2⟩
+
+
+/-- error bounds of `new_div` from the exactness of the residual, on scaled integers -/
+theorem div_bounds_int {A B Q T : Int} {U e : Nat} (hB0 : B ≠ 0) (hT : RepI T)
+    (hQ : T * B = Q * (U : Int))
+    (hres : 2 * (|A - Q| * (U : Int)) ≤ |B| * 2 ^ e) (he : 1 ≤ e)
+    (hn : 2 ^ 52 * (B.natAbs * 2 ^ e) ≤ A.natAbs * U)
+    (hq105 : 2 ^ 105 * B.natAbs ≤ A.natAbs * U) :
+    2 * |rdI ((A - Q) * (U : Int)) B| ≤ 2 ^ e ∧
+    |rnI (T + rdI ((A - Q) * (U : Int)) B) * B - A * (U : Int)| ≤ |B| * 2 ^ e ∧
+    2 ^ 106 * |(T + rdI ((A - Q) * (U : Int)) B) * B - A * (U : Int)| ≤ |A| * (U : Int) := by
+  have hm : 0 < B.natAbs := Int.natAbs_pos.2 hB0
+  have hbpos : (0 : Int) < |B| := abs_pos.2 hB0
+  obtain ⟨e', rfl⟩ : ∃ e', e = e' + 1 := ⟨e - 1, by omega⟩
+  have hrn : ((A - Q) * (U : Int)).natAbs = (A - Q).natAbs * U := natAbs_mul_natCast _ _
+  -- Nat form of the residual bound
+  have hres' : 2 * ((A - Q).natAbs * U) ≤ B.natAbs * 2 ^ (e' + 1) := by
+    have : ((2 * ((A - Q).natAbs * U) : Nat) : Int) ≤ ((B.natAbs * 2 ^ (e' + 1) : Nat) : Int) := by
+      rw [Int.natCast_mul, Int.natCast_mul, Int.natCast_mul, Int.natCast_natAbs, Int.natCast_natAbs,
+        Int.natCast_pow, Nat.cast_ofNat]
+      exact hres
+    exact Int.ofNat_le.1 this
+  have hres'' : (A - Q).natAbs * U ≤ 2 ^ e' * B.natAbs := by
+    rw [Nat.pow_succ] at hres'
+    have : B.natAbs * (2 ^ e' * 2) = 2 * (2 ^ e' * B.natAbs) := by ring
+    omega
+  -- |tl| ≤ 2^e'
+  have htl : roundQ ((A - Q).natAbs * U) B.natAbs ≤ 2 ^ e' :=
+    roundQ_le_of_le hm (rep_two_pow e') hres''
+  have htlabs := abs_rdI ((A - Q) * (U : Int)) hB0
+  rw [hrn] at htlabs
+  have herr := rdI_err ((A - Q) * (U : Int)) hB0
+  rw [hrn] at herr
+  -- the rounding exponent of the residual quotient
+  have c1 : Nat.log2 ((A - Q).natAbs * U / B.natAbs) - 52 ≤ e' := by
+    apply log2_sub_le
+    have h1 : (A - Q).natAbs * U / B.natAbs ≤ 2 ^ e' :=
+      Nat.div_le_of_le_mul (by rw [Nat.mul_comm B.natAbs]; exact hres'')
+    have h2 : 2 ^ e' < 2 ^ 53 * 2 ^ e' := by
+      have := Nat.two_pow_pos e'; omega
+    omega
+  have c2 : Nat.log2 ((A - Q).natAbs * U / B.natAbs) - 52 = 0 ∨
+      Nat.log2 ((A - Q).natAbs * U / B.natAbs) - 52 + 53 ≤ e' + 1 := by
+    rcases Nat.lt_or_ge ((A - Q).natAbs * U / B.natAbs) (2 ^ 53) with h | h
+    · exact Or.inl (log2_sub_eq_zero h)
+    · right
+      have h1 : 2 ^ 53 * B.natAbs ≤ (A - Q).natAbs * U := (Nat.le_div_iff_mul_le hm).1 h
+      have h2 : 2 ^ 52 * B.natAbs ≤ (A - Q).natAbs * U := by
+        have : (2 : Nat) ^ 52 * B.natAbs ≤ 2 ^ 53 * B.natAbs := Nat.mul_le_mul_right _ (by norm_num)
+        omega
+      have h3 := roundQ_exp_le hm h2
+      generalize Nat.log2 ((A - Q).natAbs * U / B.natAbs) - 52 = e2 at *
+      have h4 : B.natAbs * 2 ^ (53 + e2) ≤ B.natAbs * 2 ^ (e' + 1) := by
+        have : B.natAbs * 2 ^ (53 + e2) = 2 * (2 ^ 52 * (B.natAbs * 2 ^ e2)) := by
+          rw [Nat.pow_add]; ring
+        omega
+      have h5 := Nat.le_of_mul_le_mul_left h4 hm
+      have := (Nat.pow_le_pow_iff_right (by decide : 1 < 2)).1 h5
+      omega
+  generalize Nat.log2 ((A - Q).natAbs * U / B.natAbs) - 52 = e2 at *
+  generalize rdI ((A - Q) * (U : Int)) B = tl at *
+  have htl' : |tl| ≤ 2 ^ e' := by rw [htlabs]; exact_mod_cast htl
+  have hp2 : (2 : Int) ^ e2 ≤ 2 ^ e' := pow_le_pow_right₀ (by norm_num) c1
+  have hpe : (0 : Int) < 2 ^ e' := by positivity
+  -- the key identities
+  have id1 : rnI (T + tl) * B - A * (U : Int)
+      = (rnI (T + tl) - (T + tl)) * B + (tl * B - (A - Q) * (U : Int)) := by
+    linarith [hQ]
+  have id2 : (T + tl) * B - A * (U : Int) = tl * B - (A - Q) * (U : Int) := by
+    linarith [hQ]
+  have hnear : |rnI (T + tl) - (T + tl)| ≤ |tl| := by
+    have := rnI_nearest (T + tl) hT
+    have e1 : T - (T + tl) = -tl := by ring
+    rwa [e1, abs_neg] at this
+  have hx : 2 * |tl * B - (A - Q) * (U : Int)| ≤ |B| * 2 ^ e' :=
+    le_trans herr (mul_le_mul_of_nonneg_left hp2 (le_of_lt hbpos))
+  refine ⟨by rw [pow_succ]; omega, ?_, ?_⟩
+  · rw [id1]
+    have h1 := abs_add_le ((rnI (T + tl) - (T + tl)) * B) (tl * B - (A - Q) * (U : Int))
+    rw [abs_mul] at h1
+    have h2 : |rnI (T + tl) - (T + tl)| * |B| ≤ 2 ^ e' * |B| :=
+      mul_le_mul_of_nonneg_right (le_trans hnear htl') (le_of_lt hbpos)
+    rw [pow_succ]
+    have e3 : |B| * ((2 : Int) ^ e' * 2) = 2 * (2 ^ e' * |B|) := by ring
+    have e4 : |B| * (2 : Int) ^ e' = 2 ^ e' * |B| := by ring
+    rw [e3]; rw [e4] at hx
+    have := mul_pos hpe hbpos
+    omega
+  · rw [id2]
+    have hn' : (2 : Int) ^ 52 * (|B| * 2 ^ (e' + 1)) ≤ |A| * (U : Int) := by
+      rw [← Int.natCast_natAbs A, ← Int.natCast_natAbs B]; exact_mod_cast hn
+    have hq' : (2 : Int) ^ 105 * |B| ≤ |A| * (U : Int) := by
+      rw [← Int.natCast_natAbs A, ← Int.natCast_natAbs B]; exact_mod_cast hq105
+    rcases c2 with c2 | c2
+    · rw [c2, pow_zero, mul_one] at herr
+      have : (2 : Int) ^ 106 = 2 * 2 ^ 105 := by norm_num
+      rw [this]
+      generalize |tl * B - (A - Q) * (U : Int)| = x at *
+      nlinarith [herr, hq']
+    · have h6 : (2 : Int) ^ 53 * 2 ^ e2 ≤ 2 ^ (e' + 1) := by
+        rw [← pow_add]; exact pow_le_pow_right₀ (by norm_num) (by omega)
+      have h7 : (2 : Int) ^ 105 * (|B| * 2 ^ e2) ≤ 2 ^ 52 * (|B| * 2 ^ (e' + 1)) := by
+        have : (2 : Int) ^ 105 * (|B| * 2 ^ e2) = 2 ^ 52 * (|B| * (2 ^ 53 * 2 ^ e2)) := by ring
+        rw [this]
+        exact mul_le_mul_of_nonneg_left (mul_le_mul_of_nonneg_left h6 (le_of_lt hbpos))
+          (by positivity)
+      have : (2 : Int) ^ 106 = 2 * 2 ^ 105 := by norm_num
+      rw [this]
+      generalize |tl * B - (A - Q) * (U : Int)| = x at *
+      generalize |B| * (2 : Int) ^ e2 = y at *
+      nlinarith [herr, h7, hn']
+
+/-- **`new_div` (Alg. 15 of Joldes et al. with a one-word numerator).**  Hypotheses: `b` normal, `|a| ≥ 2^-969`,
+`2|a| ≤ maxFin`, `|a/b| ≥ 2^-969` and `2·RN(|a/b|) ≤ maxFin`.  Then with `th = RN(a/b)` (the IEEE quotient) and
+`e` the ulp exponent of the binade of `|a/b|`:  the residual `a - th·b` is computed exactly, `tl` is its
+correctly rounded quotient by `b`, the result is the valid pair `Fast2Sum(th, tl)`, `hi` is within one
+`ulp(a/b) = 2^e` of `a/b`, and `hi + lo` is within `2^-106·|a/b|` of `a/b` (cross-multiplied by `|b|`). -/
+theorem new_div_spec {a b : F64} (ha : a.is_finite = true) (hb : b.is_finite = true)
+    (hwa : a.WF) (hwb : b.WF)
+    (hB52 : 2 ^ 52 ≤ b.toInt.natAbs) (hA105 : 2 ^ 105 ≤ a.toInt.natAbs)
+    (hA2 : 2 * |a.toInt| ≤ (maxFin : Int))
+    (hq : 2 ^ 105 * b.toInt.natAbs ≤ a.toInt.natAbs * unit)
+    (hov : 2 * roundQ (a.toInt.natAbs * unit) b.toInt.natAbs ≤ maxFin) :
+    ∃ tl : Int,
+      (F64.div a b).is_finite = true ∧ (F64.div a b).toInt = rdI (a.toInt * (unit : Int)) b.toInt ∧
+      2 * |tl| ≤ 2 ^ (Nat.log2 (a.toInt.natAbs * unit / b.toInt.natAbs) - 52) ∧
+      (TwoFloat.new_div a b).hi.toInt = rnI ((F64.div a b).toInt + tl) ∧
+      (TwoFloat.new_div a b).V = (F64.div a b).toInt + tl ∧
+      (TwoFloat.new_div a b).Valid ∧ (TwoFloat.new_div a b).WF ∧
+      |(TwoFloat.new_div a b).hi.toInt * b.toInt - a.toInt * (unit : Int)|
+        ≤ |b.toInt| * 2 ^ (Nat.log2 (a.toInt.natAbs * unit / b.toInt.natAbs) - 52) ∧
+      2 ^ 106 * |(TwoFloat.new_div a b).V * b.toInt - a.toInt * (unit : Int)|
+        ≤ |a.toInt| * (unit : Int) := by
+  have hB0 : b.toInt ≠ 0 := by
+    intro h; rw [h] at hB52; simp at hB52
+  have hbpos : 0 < b.toInt.natAbs := Int.natAbs_pos.2 hB0
+  have hq53 : 2 ^ 53 * b.toInt.natAbs ≤ a.toInt.natAbs * unit :=
+    Nat.le_trans (Nat.mul_le_mul_right _ (by norm_num)) hq
+  have hq52 : 2 ^ 52 * b.toInt.natAbs ≤ a.toInt.natAbs * unit :=
+    Nat.le_trans (Nat.mul_le_mul_right _ (by norm_num)) hq
+  obtain ⟨Q, hQ, hres, hth, hhi, hlo⟩ := new_div_words ha hb hwa hwb hB52 hA105 hA2 hq53 hov
+  have he1 : 1 ≤ Nat.log2 (a.toInt.natAbs * unit / b.toInt.natAbs) - 52 := by
+    apply le_log2_sub
+    rw [Nat.le_div_iff_mul_le hbpos]
+    have : (2 : Nat) ^ 52 * 2 ^ 1 = 2 ^ 53 := by norm_num
+    rw [this]; exact hq53
+  obtain ⟨b1, b2, b3⟩ := div_bounds_int hB0 (repI_rdI (a.toInt * (unit : Int)) hB0) hQ hres he1
+    (roundQ_exp_le hbpos hq52) hq
+  have hw : (TwoFloat.new_div a b).WF := by rw [new_div_eq]; exact fast_two_sum_WF _ _
+  obtain ⟨p1, p2, p3, p4⟩ := eft_package hhi hlo hw.1 hw.2
+  refine ⟨_, hth.1, hth.2, b1, ?_, ?_, p3, p4, ?_, ?_⟩
+  · rw [hth.2]; exact p1
+  · rw [hth.2]; exact p2
+  · rw [p1]; exact b2
+  · rw [p2]; exact b3
+
 end F64
